@@ -14,22 +14,22 @@ RULE = ('source handlers built from properly nested if / if-else / repeat while 
         'source tree, and must contain no jz / jump line. Non-trivial = at least two compound constructs; distinct by SHA1.')
 EXPLANATION = ('Coq: the bounded exact characterisation (for every skeleton up to the stated size the model decompiles exactly the '
                'source nesting iff the handler contains none of the listed patterns), by computation inside the kernel; and an '
-               'UNBOUNDED theorem for exit-free nests of if / if-else / repeat while over straight-line statements (any depth, any body length, any '
+               'UNBOUNDED theorem for exit-free nests of if / if-else / repeat while / repeat with (up, down) over straight-line statements (any depth, any body length, any '
                'expression as condition): compiled code -> stack machine -> condition_detect / loop_detect yields exactly the '
                'source nesting (induction over the program and over the nesting depth); see coq/Props/PropC03.v.')
 TRUSTED_BASE = P2.TRUSTED_BASE
 ASSUMPTIONS = P2.ASSUMPTIONS + ['a while loop that is literally in counting-loop form (preceded by an assignment to its variable, condition <= or >=, last statement adds 1 or -1) is the same bytecode as repeat with and is printed as such (compilation is not injective there)']
-LEVEL_TEXT = ('Proof: (1) unbounded, by induction: for every exit-free nest of if / if-else / repeat while over assignments and statement calls (any depth, any '
+LEVEL_TEXT = ('Proof: (1) unbounded, by induction: for every exit-free nest of if / if-else / repeat while / repeat with (up, down) over assignments and statement calls (any depth, any '
               'number of statements, any expression as condition, only bounds the jump offsets of the format) the stack machine followed by '
-              'condition_detect and loop_detect rebuilds exactly the source nesting (C03_exit_free_nests_rebuilt_unbounded). '
+              'condition_detect and loop_detect rebuilds exactly the source nesting (C03_exit_free_nests_rebuilt_unbounded, C03_counting_loops_rebuilt_unbounded). '
               '(2) bounded for the full construct set, see note: a Coq theorem, by computation in the kernel over the faithful model '
               'of JumpOpcode / condition_detect / break_detect / loop_detect, that for EVERY skeleton with at most 3 compound '
               'constructs (bodies of one or two items, every legal exit-repeat position) decompile(compile h) rebuilds exactly the '
               'source nesting if and only if h contains none of the four listed exit-repeat patterns; the bound is in the theorem '
               'statement. The correspondence check ties the model to /repo on the same enumeration (and one size further in the '
               'thorough tier) plus random deep shapes.')
-LEVEL_NOTE = 'The unbounded statement over ALL constructs is refuted on the unchanged tree (four open findings P1-P4, all about exit repeat); proved are the unbounded theorem for exit-free if / if-else / repeat while nests and the exact bounded characterisation for the full construct set (adds the counting and list loops and exit repeat). Deeper shapes with loops / else are covered by the correspondence and the parser oracle.'
-TECHNIQUE = 'Coq proof by induction (exit-free if / if-else / repeat while nests, unbounded) and by kernel computation (vm_compute) over an exhaustive bounded enumeration (full construct set, exact iff-characterisation) + model/implementation correspondence'
+LEVEL_NOTE = 'The unbounded statement over ALL constructs is refuted on the unchanged tree (four open findings P1-P4, all about exit repeat); proved are the unbounded theorems for exit-free nests of if / if-else / repeat while / repeat with (up, down) and the exact bounded characterisation for the full construct set (adds exit repeat; list loops are covered by the correspondence only). Deeper shapes with loops / else are covered by the correspondence and the parser oracle.'
+TECHNIQUE = 'Coq proof by induction (exit-free if / if-else / repeat while / repeat with nests, unbounded) and by kernel computation (vm_compute) over an exhaustive bounded enumeration (full construct set, exact iff-characterisation) + model/implementation correspondence'
 
 def gen_cases(rng, tier):
     seen = set()
@@ -45,7 +45,7 @@ def gen_cases(rng, tier):
         yield {'tag': 'deep', 'script': deep_script(rng)}
     for s in near_counting(rng):
         yield {'tag': 'near-counting', 'script': s}
-    # the domain of the unbounded theorem: exit-free nests of if / if-else / repeat while over straight-line statements
+    # the domain of the unbounded theorem: exit-free nests of if / if-else / repeat while / repeat with (up, down) over straight-line statements
     for i in range(150 if tier == 'quick' else 3000):
         yield {'tag': 'ifnest', 'script': ifnest_script(rng)}
 
@@ -66,6 +66,10 @@ def ifnest_body(g, cx, depth, budget, inloop=False):
             b2 = [min(budget[0], 5)]
             out.append(('while', ('bin', rng.choice(['lt', 'gt', 'ne', 'eq']), ('loc', cx['locals'][0]) if cx['locals'] else ('glob', 'gX'), g.expr(cx, 1)),
                         ifnest_body(g, cx, min(depth - 1, 2), b2, True)))
+        elif depth > 0 and k < 0.7 and len(cx['locals']) > 1:
+            b2 = [min(budget[0], 4)]
+            v = cx['locals'][1 + (len(out) + depth) % (len(cx['locals']) - 1)]
+            out.append((rng.choice(['with', 'down']), v, g.expr(cx, 1), g.expr(cx, 1), ifnest_body(g, cx, min(depth - 1, 2), b2, True)))
         else:
             out.append(g.simple(cx, 1 if inloop else rng.choice([1, 2])))
     return out or [g.simple(cx, 1)]
